@@ -84,7 +84,7 @@ def run (args : List Str) : String × String × String :=
   | [c, name] => if c = str "natsend" then runNat (Str.show name) else ("bad-op", "-", "bad")
   | c :: ma :: su :: pu :: to :: _n :: rest =>
     if c ≠ str "send" then ("bad-op", "-", "bad") else
-    let setup : Setup := ⟨ma = str "T", su = str "T", pu = str "T", int to⟩
+    let setup : Setup := ⟨ma = str "T" || ma = str "R" || ma = str "N", su = str "T", pu = str "T", int to⟩
     let hist := pairs rest
     let r := sendRequest setup hist
     -- a message exactly at a deadline is a race in Go's select: no opinion
